@@ -130,6 +130,22 @@ PROPS["C03"] = {
     "technique": "Lean 4 proofs of the runtime validators on BitVec 64/Int and of the required bit mask; generated decode-and-validate path checked differentially against an independent reference validator on regenerated servers",
 }
 
+PROPS["C04"] = {
+    "lean_modules": ["Ogen.Props.C04"],
+    "suites": ["c04"],
+    "timeout": 3600,
+    "trusted_base": [
+        KERNEL, HARNESS, GENCHECK,
+        "statements in lean/Ogen/Props/C04.lean; model OptNil.* hand-written from the generated OptNilT codec (gen/_template/json/encoders_generic.tmpl, encoders_struct.tmpl); its tie is the canonical-state comparison of every wrapper in the differential run below",
+        "the reference validator and the type-directed random value builder (harness/gcrt/rand.go) define the explored domain: additional-property keys never collide with declared property names; jx.Raw members hold well-formed JSON",
+        "NOT proved: encode/decode of structs, maps, arrays, numbers and strings (jx), schema conformance of the encoding — decided on regenerated code on every run",
+    ],
+    "assumptions": ["values are compared through canonical accessors (nil = empty collection inside a set wrapper; an unset wrapper has no JSON of its own)"],
+    "level_text": "partial: three_states / states_distinct / decode_canonical for the Opt/Nil/OptNil wrapper are Lean theorems; 'every value that passes its own validation encodes to JSON valid against the schema and decodes to an equal value' is decided on every run on regenerated code (random typed values incl. every wrapper state, nil/empty/non-empty collections, extreme numbers, escape-heavy strings, recursion; plus schema-directed instances), with known finding D15",
+    "level_note": "trusted: Lean kernel, statements, wrapper model, reference validator, random value builder, gencheck pipeline. Known finding D15.",
+    "technique": "Lean 4 proof of wrapper-state preservation; generated codecs checked by type-directed round trips and reference validation on regenerated code",
+}
+
 # properties not claimed, with the reason (kept current; see DESIGN.md §7)
 NOT_CLAIMED = {
     "C10": "not applicable: determinism/race-freedom of generation lives in Go map iteration order, goroutine scheduling and the memory model; no executable model separate from the runtime can express it (DESIGN.md §7)",
